@@ -4,6 +4,7 @@ import (
 	"context"
 	"fmt"
 	"math/rand"
+	"runtime"
 	"strings"
 	"testing"
 	"time"
@@ -347,11 +348,22 @@ func runVSInBubble(t *testing.T, sc *VSScenario, ch sim.Chooser) []sim.Ev {
 		final = append(final, map[string]any{"class": c, "rank": rk, "stamp": st})
 	}
 	tr.Add("Final", "content", final, "ts", e.now())
+	// shut down: the sweeper may still park at the gate while Close waits for it,
+	// so keep releasing until Close has returned
 	e.gds.G = nil
-	for _, it := range e.gate.Pending() {
-		e.gate.Release(it, nil)
+	closeDone := make(chan struct{})
+	go func() { defer close(closeDone); _ = d.Close() }()
+	for closed := false; !closed; {
+		for _, it := range e.gate.Pending() {
+			e.gate.Release(it, nil)
+		}
+		select {
+		case <-closeDone:
+			closed = true
+		default:
+			runtime.Gosched()
+		}
 	}
-	_ = d.Close()
 	_ = e.host.Close()
 	tr.Add("End", "ts", e.now())
 	return tr.Events
